@@ -1,20 +1,22 @@
 /-
   Driver/StrsD.lean — line protocol of the `strs` engine (string model, property C09).
 
-    new <kind> <cap> <hex>            kind ::= box | fixed | bump | mut ; contents <hex> ("-" = empty)
-    op <name> <args…>
+    new <kind> <ctor> <hex> [g<n>]    kind ::= box | fixed | bump | mut ; contents <hex> ("-" = empty);
+                                      ctor ::= s (from_str_in / alloc_str) | c<n> (with_capacity_in(n) + push_str)
+    op <name> <args…> [g<n>]          `g<n>` (MutBumpString only): the capacity the arena granted if the
+                                      operation had to grow — an INPUT of the model (see `Str.Alloc.atLeast`)
 
   ops (bounds: `i<n>` included, `x<n>` excluded, `u` unbounded; chars are code points in decimal):
     push <cp> | push_str <hex> | insert <idx> <cp> | insert_str <idx> <hex> | remove <idx> | pop |
     truncate <n> | clear | retain <oracle: string over k/d/p, "-" = empty> | drain <sb> <eb> <take> |
     replace_range <sb> <eb> <hex> | extend_from_within <sb> <eb> | split_off <sb> <eb> | into_cstr |
+    reserve <n> | reserve_exact <n> | from_utf8 <hex> | from_utf16 <hex of u16 units, big endian> | from_utf16_lossy <hex> |
     cstr <hex-with-nul> | cstr_from_str <hex> | cstr_fmt lit <hex> | cstr_fmt pieces <hex>… |
     boundary <idx> | valid <hex> | chars
 
   answer:  <outcome> | <contents hex> | <len> | <cap or ->
     outcome ::= ok | ok:<value> | err | panic | fault | bad-line
-  `cap` is printed for fixed strings only (the growth policy of growable strings belongs to the
-  buffer engine); for `box` the capacity is the length.
+  `cap` is printed for fixed, bump and mut strings (`-` for `box`, whose capacity is its length).
 -/
 import BumpProof.Str.Model
 
@@ -55,6 +57,14 @@ def toHex (l : Bytes) : String :=
   if l.isEmpty then "-"
   else String.ofList (l.flatMap (fun b => [hexChar (b.toNat / 16), hexChar (b.toNat % 16)]))
 
+/-- pairs of bytes (big endian) → UTF-16 code units -/
+def parseU16 : Bytes → Option (List UInt16)
+  | [] => some []
+  | [_] => none
+  | hi :: lo :: r => do
+    let rest ← parseU16 r
+    pure (UInt16.ofNat (hi.toNat * 256 + lo.toNat) :: rest)
+
 def parseBound (t : String) : Option Bound :=
   if t == "u" then some .unbounded
   else match t.toList with
@@ -71,15 +81,17 @@ def parseOracle (t : String) : Option (List Outcome) :=
   else t.toList.mapM (fun c => if c == 'k' then some Outcome.keep else if c == 'd' then some Outcome.drop
                                else if c == 'p' then some Outcome.panic else none)
 
-def isFixed : Kind → Bool
-  | .fixed => true
-  | .box => true
-  | _ => false
+def allocOf (k : Kind) (grant : Nat) : Alloc :=
+  match k with
+  | .fixed => .fixed
+  | .box => .fixed
+  | .bump => .exact
+  | .mut => .atLeast grant
 
 def showState (k : Kind) (s : State) : String :=
   let cap := match k with
-    | .fixed => toString s.cap
-    | _ => "-"
+    | .box => "-"
+    | _ => toString s.cap
   s!"{toHex s.bytes} | {s.len} | {cap}"
 
 def cps (cs : List Char) : String :=
@@ -103,10 +115,25 @@ def finish {α : Type} (d : DState) (r : Res α) (val : α → String) : DState 
 
 def unit (_ : Unit) : String := ""
 
-def handleOp (d : DState) (toks : List String) : Option (DState × String) :=
-  let fx := isFixed d.kind
+/-- a trailing `g<n>` token: the grant -/
+def splitGrant (toks : List String) : List String × Nat :=
+  match toks.getLast? with
+  | some t =>
+    match t.toList with
+    | 'g' :: r =>
+      match (String.ofList r).toNat? with
+      | some n => (toks.dropLast, n)
+      | none => (toks, 0)
+    | _ => (toks, 0)
+  | none => (toks, 0)
+
+def handleOp (d : DState) (toks0 : List String) : Option (DState × String) :=
+  let (toks, grant) := splitGrant toks0
+  let fx := allocOf d.kind grant
   let s := d.s
   match toks with
+  | ["reserve", n] => do pure (finish d (reserveOp fx s (← n.toNat?)) unit)
+  | ["reserve_exact", n] => do pure (finish d (reserveExactOp fx s (← n.toNat?)) unit)
   | ["push", c] => do pure (finish d (push fx s (← parseChar c)) unit)
   | ["push_str", h] => do pure (finish d (pushStr fx s (← parseHex h)) unit)
   | ["insert", i, c] => do pure (finish d (insert fx s (← i.toNat?) (← parseChar c)) unit)
@@ -123,8 +150,14 @@ def handleOp (d : DState) (toks : List String) : Option (DState × String) :=
     let r := splitOff c09aFixed s (← parseBound a) (← parseBound b)
     pure (finish d r (fun o =>
       let o := norm d.kind o
-      toHex o.bytes ++ ":" ++ (match d.kind with | .fixed => toString o.cap | _ => "-")))
-  | ["into_cstr"] => some (finish d (intoCstr fx s) toHex)
+      toHex o.bytes ++ ":" ++ (match d.kind with | .box => "-" | _ => toString o.cap)))
+  | ["into_cstr"] =>
+    -- the string is consumed: the observation is the C string itself (no capacity)
+    match intoCstr fx s with
+    | .ok v _ => some (d, "ok:" ++ toHex v ++ " | " ++ toHex v ++ " | " ++ toString v.length ++ " | -")
+    | .err _ => some (d, "err")
+    | .panic _ => some (d, "panic")
+    | .fault => some ({ d with dead := true }, "fault")
   | ["cstr", h] => do
     let b ← parseHex h
     pure (d, "ok:" ++ toHex (allocCstr b))
@@ -143,6 +176,22 @@ def handleOp (d : DState) (toks : List String) : Option (DState × String) :=
     | .err _ => pure (d, "err")
     | .panic _ => pure (d, "panic")
     | .fault => pure (d, "fault")
+  | ["from_utf8", h] => do
+    let b ← parseHex h
+    match fromUtf8 (State.ofBytes b) with
+    | some v => pure (d, "ok:" ++ toHex v.bytes)
+    | none => pure (d, "err")
+  | ["from_utf16", h] => do
+    let us ← parseU16 (← parseHex h)
+    match fromUtf16 .exact us with
+    | some (.ok () v) => pure (d, "ok:" ++ toHex v.bytes ++ ":" ++ toString v.cap)
+    | none => pure (d, "err")
+    | _ => pure (d, "fault")
+  | ["from_utf16_lossy", h] => do
+    let us ← parseU16 (← parseHex h)
+    match fromUtf16Lossy .exact us with
+    | some (.ok () v) => pure (d, "ok:" ++ toHex v.bytes ++ ":" ++ toString v.cap)
+    | _ => pure (d, "fault")
   | ["boundary", i] => do pure (d, if boundaryOk s (← i.toNat?) then "ok:1" else "ok:0")
   | ["valid", h] => do pure (d, if validUtf8 (← parseHex h) then "ok:1" else "ok:0")
   | ["chars"] =>
@@ -154,14 +203,33 @@ def handleOp (d : DState) (toks : List String) : Option (DState × String) :=
 def parseKind : String → Option Kind
   | "box" => some .box | "fixed" => some .fixed | "bump" => some .bump | "mut" => some .mut | _ => none
 
-def handle (d : DState) (toks : List String) : DState × String :=
-  match toks with
-  | ["new", k, cap, h] =>
-    match parseKind k, cap.toNat?, parseHex h with
-    | some k, some cap, some b =>
-      let s := State.ofBytes b (match k with | .box => 0 | _ => cap)
-      ({ kind := k, s := s, dead := false }, "ok | " ++ showState k s)
-    | _, _, _ => (d, "bad-line")
+/-- constructor: `s` = `from_str_in` (`alloc_str` for a box); `c<n>` = `with_capacity_in(n)` then `push_str` -/
+def construct (k : Kind) (ctor : String) (b : Bytes) (grant : Nat) : Option (Res Unit) :=
+  let al := allocOf k grant
+  match ctor.toList with
+  | ['s'] =>
+    match k with
+    | .box => some (.ok () { buf := b, len := b.length })
+    | _ => some (.ok () (fromStr al b))
+  | 'c' :: r => do
+    let n ← (String.ofList r).toNat?
+    pure (pushStr al (withCapacity al n) b)
+  | _ => none
+
+def handle (d : DState) (toks0 : List String) : DState × String :=
+  match toks0 with
+  | "new" :: rest =>
+    let (toks, grant) := splitGrant rest
+    match toks with
+    | [k, ctor, h] =>
+      match parseKind k, parseHex h with
+      | some k, some b =>
+        match construct k ctor b grant with
+        | some (.ok () s) => ({ kind := k, s := s, dead := false }, "ok | " ++ showState k s)
+        | some (.err s) => ({ kind := k, s := s, dead := false }, "err | " ++ showState k s)
+        | _ => (d, "bad-line")
+      | _, _ => (d, "bad-line")
+    | _ => (d, "bad-line")
   | "op" :: rest =>
     if d.dead then (d, "dead")
     else match handleOp d rest with
